@@ -1,0 +1,9 @@
+//go:build !verif
+// +build !verif
+
+package astits
+
+// No-op counterparts of the verif-tagged observers (see verif_export.go); with the tag off they compile to nothing.
+
+func verifPool(op string, p *bytesPoolItem)          {}
+func verifAcc(pid uint16, cc uint8, decision string) {}
